@@ -1,11 +1,14 @@
 use crate::canon::*;
+use crate::guard::GuardBuf as G;
 use rsdns::names::{InlineName, Name};
 
 pub fn dispatch(op: &str, rest: &str) -> String {
     let a: Vec<&str> = rest.split(' ').collect();
     match op {
-        "name" => op_name(&unhex(a[0]), a[1].parse().unwrap()),
+        "name" => op_name(G::new(&unhex(a[0])).as_slice(), a[1].parse().unwrap()),
         "script" => crate::ops_script::op_script(&a),
+        "iter" => crate::ops_script::op_iter(G::new(&unhex(a[0])).as_slice()),
+        "rrset" => crate::ops_script::op_rrset(a[0].parse().unwrap(), G::new(&unhex(a[1])).as_slice()),
         _ => format!("BADOP({})", op),
     }
 }
